@@ -105,7 +105,16 @@ func weightsFamily(env *Env) error {
 			var fa strings.Builder
 			fmt.Fprintf(&fa, ">a\n%s\n>b\n%s\n", string(i2b(rows[0])), string(i2b(rows[1])))
 			seed := rng.Intn(1 << 30)
-			out, errs, rc := runGoalign([]byte(fa.String()), "build", "weightboot", "-n", "3", "--seed", fmt.Sprint(seed))
+			argv := []string{"build", "weightboot", "-n", "3", "--seed", fmt.Sprint(seed)}
+			input := fa.String()
+			if weightsCliCount++; weightsCliCount%2 == 0 {
+				// a Phylip file holding two alignments: the command works on the FIRST one (the second has another length)
+				L2 := L + 1 + weightsCliCount%3
+				input = fmt.Sprintf(" 2 %d\na  %s\nb  %s\n 2 %d\na  %s\nb  %s\n", L, string(i2b(rows[0])), string(i2b(rows[1])),
+					L2, strings.Repeat("A", L2), strings.Repeat("C", L2))
+				argv = append(argv, "-p")
+			}
+			out, errs, rc := runGoalign([]byte(input), argv...)
 			lines := strings.Split(strings.TrimRight(out, "\n"), "\n")
 			if rc != 0 || len(lines) != 3 {
 				ev := blank("weightscli")
@@ -200,5 +209,7 @@ func sortFloats(x []float64) {
 		}
 	}
 }
+
+var weightsCliCount int
 
 func init() { families["weights"] = weightsFamily }
